@@ -4,7 +4,7 @@ use crate::{
     case::*,
     gen, oracle,
     sim::{self, Outcome},
-    tcp,
+    tcp, tcp_cut,
 };
 use serde::{Deserialize, Serialize};
 use serde_json::json;
@@ -64,11 +64,13 @@ fn summary(case: &Case, out: &Outcome) -> serde_json::Value {
             "streams": c.streams.iter().map(|s| json!({
                 "req": s.req.len, "resp": s.resp.len,
                 "client_concurrent": s.client_concurrent, "server_concurrent": s.server_concurrent,
+                "dialog_first": s.dialog.map(|d| d.first),
             })).collect::<Vec<_>>(),
         })).collect::<Vec<_>>(),
         "tape_up": case.net.up.faults.len(), "tape_down": case.net.down.faults.len(),
         "repeat": case.net.up.repeat,
         "blackholes": case.net.blackholes.len(),
+        "targeted": case.net.targeted.len(),
         "loss": case.loss.map(|l| format!("{:?}@{}us", l.kind, l.at_us)),
         "datagrams": out.net.sent,
         "dropped": [out.net.dropped_stream, out.net.dropped_recovery, out.net.dropped_control],
@@ -88,6 +90,15 @@ fn classes(case: &Case, out: &Outcome, obs: &mut Obs) {
     obs.class_if(!case.polite(), "rude_half");
     obs.class_if(streams.iter().any(|s| s.client_concurrent), "client_concurrent");
     obs.class_if(streams.iter().any(|s| s.server_concurrent), "server_concurrent");
+    obs.class_if(streams.iter().any(|s| s.dialog.is_some()), "dialog");
+    obs.class_if(
+        streams.iter().any(|s| s.dialog.map_or(false, |d| d.first >= s.req.len)),
+        "dialog:whole_request_then_wait",
+    );
+    obs.class_if(
+        streams.iter().any(|s| s.dialog.map_or(false, |d| d.first < s.req.len)),
+        "dialog:more_after_response",
+    );
     obs.class_if(
         case.server_mtu > 9000 || case.clients.iter().any(|c| c.mtu > 9000),
         "mtu>9000",
@@ -104,6 +115,12 @@ fn classes(case: &Case, out: &Outcome, obs: &mut Obs) {
         obs.class_if(n.overtaken > 0, "overtaken");
         obs.class_if(n.secret_control_seen > 0, "secret_control_pkt");
         obs.class_if(!case.net.blackholes.is_empty(), "blackhole_phase");
+        if !case.net.targeted.is_empty() {
+            obs.class_if(n.targeted_applied > 0, "targeted_fault_applied");
+            obs.class_if(n.targeted_applied == 0, "targeted_fault_missed");
+            obs.class_if(n.retx_of_lost_dropped == 1, "lost_pkt_retx_lost_once");
+            obs.class_if(n.retx_of_lost_dropped >= 2, "lost_pkt_retx_lost_twice+");
+        }
         obs.class_if(
             n.dropped_stream + n.dropped_recovery + n.dropped_control + n.duplicated + n.delayed == 0,
             "no_fault_applied",
@@ -156,6 +173,17 @@ fn udp_oracle(case: &Case, obs: &mut Obs) -> CaseResult {
     let out = run_sim(case)?;
     classes(case, &out, obs);
     obs.nontrivial(oracle::nontrivial(case, &out));
+    oracle::judge(case, &out, obs)
+}
+
+/// non-trivial: a stream-space packet and a recovery-space packet that carried its bytes again
+/// were both lost while a dialogue (writer idle before its FIN) was in the case
+fn dialog_oracle(case: &Case, obs: &mut Obs) -> CaseResult {
+    assert_eq!(case.proto, Proto::Udp, "replay file of another sub-check");
+    let out = run_sim(case)?;
+    classes(case, &out, obs);
+    let dialog = case.clients.iter().flat_map(|c| c.streams.iter()).any(|s| s.dialog.is_some());
+    obs.nontrivial(dialog && out.net.retx_of_lost_dropped >= 1);
     oracle::judge(case, &out, obs)
 }
 
@@ -228,6 +256,7 @@ fn exchange(i: u8) -> Case {
                 resp: whole(resp),
                 client_concurrent,
                 server_concurrent,
+                dialog: None,
             }],
         }],
         net: NetCase::default(),
@@ -300,14 +329,135 @@ fn enum_oracle(sf: &SingleFault, obs: &mut Obs) -> CaseResult {
 }
 
 // ---------------------------------------------------------------------------------------
+// enumeration: a stream-space packet and its first retransmission(s) are lost, in dialogues
+
+#[derive(Clone, Debug, Hash, PartialEq, Eq, Serialize, Deserialize)]
+pub struct RetxPair {
+    pub dialogue: u8,
+    /// direction of the lost packets: client -> server
+    pub up: bool,
+    /// ordinal of the lost stream-space packet in that direction
+    pub k: u16,
+    /// 1: its first retransmission is lost too; 2: the first two
+    pub depth: u8,
+}
+
+/// the fixed dialogues of the enumeration
+fn dialogue(i: u8) -> Case {
+    // (request, bytes of it before the response, response, MTU)
+    let (req, first, resp, mtu) = match i {
+        // the whole request within the initial flow window, then wait, then finish
+        0 => (8_000, 8_000, 3_000, 1500),
+        // both directions exceed the flow window; more request after the response
+        1 => (30_000, 12_000, 20_000, 1500),
+        // header-only first part, jumbo datagrams
+        2 => (50_000, 0, 60_000, 9000),
+        _ => (14_000, 14_000, 14_720, 1250),
+    };
+    let mut case = exchange(0);
+    case.seed = 40 + i as u64;
+    case.server_mtu = mtu;
+    let c = &mut case.clients[0];
+    c.mtu = mtu;
+    c.streams[0].req = whole(req);
+    c.streams[0].resp = whole(resp);
+    c.streams[0].dialog = Some(Dialog { first });
+    case
+}
+
+const DIALOGUES: u8 = 4;
+const DEPTHS: u64 = 2;
+
+fn dialogues(tier: Tier) -> u8 {
+    tier.pick(2, DIALOGUES)
+}
+
+/// stream-space packets [up, down] of the fault-free run of every dialogue
+fn dialogue_counts() -> &'static Vec<[u32; 2]> {
+    static N: OnceLock<Vec<[u32; 2]>> = OnceLock::new();
+    N.get_or_init(|| {
+        (0..DIALOGUES)
+            .map(|i| {
+                let out = sim::run(&dialogue(i), false).expect("fault-free dialogue panicked");
+                assert!(
+                    out.world.streams[0][0].client_r.lock().unwrap().eof_at.is_some(),
+                    "fault-free dialogue {i} did not complete"
+                );
+                [out.net.sent_kind[0][0], out.net.sent_kind[1][0]]
+            })
+            .collect()
+    })
+}
+
+fn pair_total(tier: Tier) -> u64 {
+    let n = dialogue_counts();
+    (0..dialogues(tier)).map(|i| (n[i as usize][0] + n[i as usize][1]) as u64 * DEPTHS).sum()
+}
+
+fn pair_case(tier: Tier, mut idx: u64) -> RetxPair {
+    let n = dialogue_counts();
+    for i in 0..dialogues(tier) {
+        let [up, down] = n[i as usize];
+        let span = (up + down) as u64 * DEPTHS;
+        if idx < span {
+            let depth = (idx % DEPTHS) as u8 + 1;
+            let p = (idx / DEPTHS) as u32;
+            return if p < up {
+                RetxPair { dialogue: i, up: true, k: p as u16, depth }
+            } else {
+                RetxPair { dialogue: i, up: false, k: (p - up) as u16, depth }
+            };
+        }
+        idx -= span;
+    }
+    unreachable!("index beyond the enumeration")
+}
+
+fn pair_oracle(rp: &RetxPair, obs: &mut Obs) -> CaseResult {
+    let mut case = dialogue(rp.dialogue);
+    case.net.targeted.push(Targeted {
+        up: rp.up,
+        target: Target::Nth { kind: PktKind::Stream, n: rp.k },
+        fault: Fault::Drop,
+    });
+    for n in 0..rp.depth {
+        case.net.targeted.push(Targeted {
+            up: rp.up,
+            target: Target::RetxOf { k: rp.k, n: n as u16 },
+            fault: Fault::Drop,
+        });
+    }
+    let out = run_sim(&case)?;
+    classes(&case, &out, obs);
+    obs.class(if rp.up { "pair:request_direction" } else { "pair:response_direction" });
+    obs.class(if rp.depth == 1 { "pair:first_retx_lost" } else { "pair:first_two_retx_lost" });
+    // the packet and (at least) its first retransmission were lost
+    obs.nontrivial(out.net.dropped_stream >= 1 && out.net.retx_of_lost_dropped >= 1);
+    oracle::judge(&case, &out, obs)
+}
+
+// ---------------------------------------------------------------------------------------
 
 pub fn subs() -> Vec<Box<dyn SubCheck>> {
-    vec![
+    let mut subs: Vec<Box<dyn SubCheck>> = vec![
         Box::new(EnumCheck::<SingleFault> {
             name: "udp_single_fault_enum",
             total: enum_total,
             case: enum_case,
             oracle: enum_oracle,
+        }),
+        Box::new(EnumCheck::<RetxPair> {
+            name: "udp_retx_pair_enum",
+            total: pair_total,
+            case: pair_case,
+            oracle: pair_oracle,
+        }),
+        Box::new(PropCheck {
+            name: "udp_dialog_retx",
+            cases: |t| t.pick(480, 8_000),
+            strategy: |_| gen::dialog_case(),
+            oracle: dialog_oracle,
+            max_shrink_iters: 150,
         }),
         Box::new(PropCheck {
             name: "udp_generated",
@@ -330,18 +480,22 @@ pub fn subs() -> Vec<Box<dyn SubCheck>> {
             oracle: tcp_oracle,
             max_shrink_iters: 100,
         }),
-    ]
+    ];
+    subs.extend(tcp_cut::subs());
+    subs
 }
 
 pub fn property() -> Property {
     Property {
         id: "C20",
-        rule: "udp_generated: 1-4 clients x 1-4 streams of stream::testing::{Client,Server} in a seeded bach simulation; per stream a request/response script (sizes 0..2 MiB biased to 0/1, the MTU region, 14720 = initial flow window, 64 KiB; write chunkings, read buffers 1..64 KiB, pauses, shutdown or drop, early reader drop, sequential or full-duplex on either side), MTU 1250..32000 per endpoint, own fault allocator with a decision per datagram (pass/drop/duplicate/delay 0..20 ms) per direction plus blackhole phases; tapes are a finite prefix (85%) or repeat for ever (15%, integrity only). peer_loss: same scripts, at a generated instant the network blackholes for ever (both or one direction) / all server tasks are dropped / the server forgets the path secrets. udp_single_fault_enum: for 3 (quick) / 5 (thorough) fixed exchanges every datagram index k of the fault-free run x {drop, duplicate, delay 2 ms, delay 20 ms} (complete), each case run twice to confirm determinism. tcp_generated: the same scripts over loopback TCP under tokio, no fault injection. Non-trivial (udp_generated, peer_loss): at least one stream-space datagram and one control (ACK) datagram were lost and one datagram was duplicated or overtaken and a transfer exceeded the initial flow window of 14720 bytes, or the peer-loss event was applied while scripts were running; enum: the fault hit a datagram of the run; tcp: a transfer exceeded the initial flow window. Distinct = distinct generated case.",
+        rule: "udp_generated: 1-4 clients x 1-4 streams of stream::testing::{Client,Server} in a seeded bach simulation; per stream a request/response script (sizes 0..2 MiB biased to 0/1, the MTU region, 14720 = initial flow window, 64 KiB; write chunkings, read buffers 1..64 KiB, pauses, shutdown or drop, early reader drop, sequential or full-duplex on either side), MTU 1250..32000 per endpoint, own fault allocator with a decision per datagram (pass/drop/duplicate/delay 0..20 ms) per direction plus blackhole phases; tapes are a finite prefix (85%) or repeat for ever (15%, integrity only). peer_loss: same scripts, at a generated instant the network blackholes for ever (both or one direction) / all server tasks are dropped / the server forgets the path secrets. udp_single_fault_enum: for 3 (quick) / 5 (thorough) fixed exchanges every datagram index k of the fault-free run x {drop, duplicate, delay 2 ms, delay 20 ms} (complete), each case run twice to confirm determinism. udp_dialog_retx: 1-2 clients x 1-3 streams, 90% of them dialogues on an open stream (the client writes the first part of the request - nothing / a part / all of it - WITHOUT finishing, waits for the complete response, writes the rest and only then finishes; the server reads exactly that first part, answers, then reads to the end), faults addressed by packet class and ordinal from the cleartext headers: 1-3 groups 'the k-th stream-space packet of a direction is lost, and so are (or: are delayed/duplicated) the first 0-3 recovery-space packets that carry its bytes again', 10% plus a lost control datagram of the other direction, 20% on top of a light tape; the liveness oracle of the finite-prefix family applies (all faults hit single datagrams). udp_retx_pair_enum: for 2 (quick) / 4 (thorough) fixed dialogues every stream-space packet k of either direction of the fault-free run x {its first retransmission lost too, its first two} (complete). tcp_generated: the same scripts over loopback TCP under tokio, no fault injection. tcp_cut_enum / tcp_cut_generated: loopback TCP through an in-process forwarder that parses the record headers of one direction (request or response), lets a chosen number of complete records and a chosen part of the next one (nothing / 1 byte / inside the header / exactly the header / inside the payload / all but one byte) through and then closes both sockets or sends FIN to the reader only; the writer ends the stream inside its last write (write_all_from_fin: every record of it announces the final offset) or by shutdown(); enum: 3 (quick) / 4 (thorough) sizes (last write of 1, 2, 3, 7 records) x direction x finish mode x close mode x every record of the last write x 5 parts + clean (complete); generated: lead writes 0..40 kB in generated chunks, last write 0..300 kB biased to multiples of the 16 KiB record, read buffers 1..64 KiB. Non-trivial (udp_generated, peer_loss): at least one stream-space datagram and one control (ACK) datagram were lost and one datagram was duplicated or overtaken and a transfer exceeded the initial flow window of 14720 bytes, or the peer-loss event was applied while scripts were running; enum: the fault hit a datagram of the run; udp_dialog_retx / udp_retx_pair_enum: a stream-space packet and a recovery-space packet carrying its bytes again were both lost (and the case has a dialogue); tcp: a transfer exceeded the initial flow window; tcp_cut_*: the connection was cut while a reader was reading the cut direction. Distinct = distinct generated case.",
         assumptions: &[
             "bach 0.1.2 discrete-event runtime, its UDP socket model and virtual clock; the harness's fault allocator is a copy of bach's Fixed::for_udp with a per-datagram decision",
             "stream::testing::{Client, Server} builders of s2n-quic-dc (in-memory path secret exchange instead of the real handshake; TEST_APPLICATION_PARAMS: idle timeout 30 s, initial peer window 14720)",
             "no datagram corruption (UDP checksum assumed); datagram classes are taken from the cleartext tag byte",
-            "TCP sub-check: kernel loopback TCP and wall-clock scheduling; a 300 s wall-clock backstop stands in for the virtual-time cap",
+            "TCP sub-checks: kernel loopback TCP and wall-clock scheduling; a 300 s wall-clock backstop stands in for the virtual-time cap",
+            "tcp_cut_*: the forwarder finds record boundaries with s2n-quic-dc's own packet decoder (cleartext header only); records are sealed as a whole, so a partly forwarded record can never be delivered; after the forwarder has closed the connection the only thing a reader legitimately waits for is the loopback delivery of FIN/RST, so a reader still pending 10 s later is taken as hanging (the watchdog turns a hang into a verdict, it never separates two terminating behaviours); endpoints are shared by the cases of one process",
+            "targeted faults: stream offset / payload length / stream identity are read from the cleartext header with s2n-quic-dc's stream packet decoder",
             "payload = keyed PRF per (case seed, client, stream, direction); the first request byte names the stream for the server side of the harness",
         ],
         subs: subs(),
